@@ -27,6 +27,11 @@ def baseline(unit):
     return b.get('discharged', {})
 
 
+def baseline_anchors(unit):
+    b = load_json(os.path.join(VERIF, 'contracts', unit, 'baseline.json'), {})
+    return b.get('anchors')
+
+
 def known_findings():
     return load_json(os.path.join(VERIF, 'known_findings.json'), {'findings': []})['findings']
 
@@ -39,7 +44,7 @@ def rebaseline(units):
             continue
         d = {oid: info['text'] for oid, info in sorted(r.obligations.items()) if oid not in r.failed}
         path = os.path.join(VERIF, 'contracts', u, 'baseline.json')
-        json.dump({'unit': u, 'discharged': d, 'failed_at_baseline': sorted(r.failed)}, open(path, 'w'), indent=1, sort_keys=True)
+        json.dump({'unit': u, 'discharged': d, 'failed_at_baseline': sorted(r.failed), 'anchors': r.anchor_fp}, open(path, 'w'), indent=1, sort_keys=True)
         print('unit %s: %d obligations, %d discharged, %d failing: %s' % (u, len(r.obligations), len(d), len(r.failed), sorted(r.failed)))
 
 
@@ -83,6 +88,15 @@ def check_property(pid, tier='quick', seed=0, replay_only=None):
                 failed[oid] = msgs
         for fid in getattr(r, 'degraded', ()):
             degraded.add((u, fid))
+        # anchor drift: a positional anchor (`@at N "needle"`, `@loop N`) that now attaches somewhere else than on the
+        # pinned tree (different loop header, different number of occurrences of the needle) means the hints of that
+        # function may sit at the wrong place: its refutations need a replayed input (same rule as a lost anchor)
+        ba = baseline_anchors(u)
+        if ba is not None:
+            for fid, fp in getattr(r, 'anchor_fp', {}).items():
+                if ba.get(fid) != fp:
+                    degraded.add((u, fid))
+                    normlog.append({'rule': 'anchor-drift', 'where': '%s %s' % (u, fid), 'before': ba.get(fid), 'after': fp})
         for la in getattr(r, 'lost', []):
             oid = la['obligation']
             if oid in r.obligations and pid in r.obligations[oid]['props']:
@@ -184,9 +198,21 @@ def check_property(pid, tier='quick', seed=0, replay_only=None):
             # a function one of whose proof hints lost its anchor is verified with an INCOMPLETE proof: a failure
             # there is a proof failure, not a refutation, unless the replay exhibits an input
             incomplete = (oid.split('/')[0], info.get('fn')) in degraded
-            if found or (info.get('property_level', True) and not incomplete):
+            # A baselined property-level obligation that is refuted WITHOUT a replayed failing input is reported, as the
+            # interface prescribes, as "VIOLATION ... no-failing-input-found" - unless the function is degraded (a hint
+            # anchor was lost or now attaches elsewhere than on the pinned tree), in which case the failure is a proof
+            # failure and UNDECIDED.  A false-alarm hunt with 232 behaviour-preserving refactors (tools/harmless_report.md)
+            # measured what this costs: after the anchor rules, 3 of 232 edits still make a proof stop going through.
+            # VERIF_PRECISION_FIRST=1 turns every unwitnessed refutation into UNDECIDED (exit 2) for users who prefer
+            # silence to that rate.  Ownership-scan obligations carry their own witness (the write site).
+            structural = info.get('kind') == 'scan'
+            unwitnessed_ok = structural or os.environ.get('VERIF_PRECISION_FIRST') != '1'
+            if found or (unwitnessed_ok and info.get('property_level', True) and not incomplete):
                 confirmed.append(oid)
-                lines.append('VIOLATION property=%s replay=%s%s' % (pid, path, '' if found else ' no-failing-input-found'))
+                lines.append('VIOLATION property=%s replay=%s%s' % (pid, path, '' if (found or structural) else ' no-failing-input-found'))
+            elif info.get('property_level', True) and not incomplete:
+                internal_only.append(oid)
+                lines.append('UNDECIDED property=%s obligation %s was discharged on the pinned tree and is refuted on this tree, but the replay search found no failing input on the real code (no-failing-input-found; VERIF_PRECISION_FIRST=1 is set); see %s' % (pid, oid, path))
             else:
                 # a proof-internal obligation (loop invariant / hint assertion): the property-level clauses of the
                 # function were checked assuming it, and the replay search found no failing input: no verdict
